@@ -83,6 +83,9 @@ IMPLS = [
 ]
 
 
+FP_NOTES = []      # calls that left the floating-point control state changed (reported by the drivers)
+
+
 def call_impl(L, tables, impl, m, mask, z, off=0):
     """z: complex128 vector of length m -> complex128 output (or None), and the table it used"""
     tr, layout, name, how, _ = impl
@@ -90,11 +93,15 @@ def call_impl(L, tables, impl, m, mask, z, off=0):
     zz = np.stack([z.real, z.imag], axis=1)
     d.f64[:] = kernels.to_layout(layout, zz)
     t = None
+    fp0 = L.fpenv()
     if how == "simple":
         L.fn(name, "v wp")(m, d.addr)
     else:
         t = tables.get("new_%s_%s_precomp" % (layout, tr), m, mask if how == "dispatch" else MASK_NONE, ("w", 0))
         L.fn(name, "v pp")(t, d.addr)
+    why = L.fpenv_check(fp0)
+    if why:
+        FP_NOTES.append("%s m=%d: %s" % (name, m, why))
     if not d.canaries_ok():
         return None, t
     o = kernels.from_layout(layout, d.f64, m)
@@ -198,6 +205,8 @@ def drive(rec, ms, quick):
                     unchanged = True if blk is None else (L.snapshot_blocks([blk]) == snap)
                     events.append({"e": "Same", "identical": bool(same), "table_unchanged": bool(unchanged),
                                    "_what": "%s m=%d mask=%d: repeated call / table bytes" % (name, m, mask)})
+        while FP_NOTES:
+            rec.violation(FP_NOTES.pop(0), {})
         # ---------------- library-owned work buffers (new_*_precomp(m, num_buffers), *_precomp_get_buffer): the transform run inside
         # them must equal the transform run in a caller array, before and after, and the buffers must not overlap each other
         for tr in ("fft", "ifft"):
